@@ -1,7 +1,7 @@
 #!/bin/bash
-# usage: tools_validate_mutants.sh C01 [C02 ...] : validates /tmp/wt_<ID>/_out/<k>/ and copies good ones to /verif/seeded/<ID>_<k>/
+# usage: [WTPREFIX=/tmp/w3_] [SUFFIX=c] tools_validate_mutants.sh C01 [C02 ...] : validates <WTPREFIX><ID>/_out/<k>/ and copies good ones to /verif/seeded/<ID>_<SUFFIX><k>/
 for id in "$@"; do
- wt=/tmp/wt_$id
+ wt=${WTPREFIX:-/tmp/wt_}$id
  for d in $wt/_out/[0-9]*; do
   [ -f $d/patch.diff ] || continue
   k=$(basename $d)
